@@ -703,7 +703,12 @@ impl<Tz: TimeZone> DateTime<Tz> {
     /// ```
     #[must_use]
     pub fn with_time(&self, time: NaiveTime) -> LocalResult<Self> {
-        self.timezone().from_local_datetime(&self.overflowing_naive_local().date().and_time(time))
+        self.timezone()
+            .from_local_datetime(&self.overflowing_naive_local().date().and_time(time))
+            .and_then(|dt| match dt >= DateTime::<Utc>::MIN_UTC && dt <= DateTime::<Utc>::MAX_UTC {
+                true => Some(dt),
+                false => None,
+            })
     }
 
     /// The minimum possible `DateTime<Utc>`.
